@@ -62,7 +62,11 @@ func runLedger(j Job) *Result {
 			o.Steps = 150 + r.Intn(150)
 		}
 		o.Profile = j.Variant
-		if j.Variant != "invalid" && i%3 == 2 {
+		if j.Variant == "" && i%2 == 1 {
+			// C01 / C02 have no profile of their own: half of their histories rotate through the others
+			all := []string{"slash", "exit", "keys", "power", "queues"}
+			o.Profile = all[(i/2)%len(all)]
+		} else if j.Variant != "invalid" && i%3 == 2 {
 			// every third history runs one of the other profiles: each property's monitor also sees the states that
 			// the slash / exit / keys / power / queues workloads reach
 			all := []string{"", "exit", "slash", "keys", "power", "queues"}
